@@ -326,7 +326,7 @@ def families(ctx):
     """list of lattice descriptors"""
     T = ctx.thorough
     out = []
-    m3 = 5 if T else 4
+    m3 = 5 if T else 3
     shapes = [()]
     for nd, mx in ((1, 6 if T else 5), (2, 5), (3, m3)):
         shapes += list(itertools.product(range(1, mx + 1), repeat=nd))
@@ -370,9 +370,34 @@ def families(ctx):
     if T:
         bases += [["int", [2, 2, 2], [True, False, True]], ["hex", 2, 3, True], ["brick", 3, 2, True, True],
                   ["ofc", 4, 3, True, False], ["layer", ["int", [2], [False]], 2]]
-    for b in bases:
-        for nl in (1, 2, 3):
+    for k, b in enumerate(bases):
+        for nl in (1, 2, 3) + ((4, 5) if k in (0, 1, 6, 9) else ()):
             out.append(["layer", b, nl])
+    # a seeded handful of larger lattices (beyond the exhaustive box)
+    nbig = 40 if T else 14
+    for _ in range(nbig):
+        kind = rng.choice(["int", "int", "tri", "hex", "brick", "ofc"])
+        if kind == "int":
+            nd = rng.choice([1, 2, 3, 4])
+            while True:
+                sh = [rng.randint(1, {1: 12, 2: 9, 3: 7, 4: 4}[nd]) for _ in range(nd)]
+                if int(np.prod(sh)) <= 220:
+                    break
+            out.append(["int", sh, [rng.random() < 0.5 for _ in sh]])
+        elif kind == "tri":
+            out.append(["tri", [rng.randint(1, 9), rng.randint(1, 9)], [rng.random() < 0.5, rng.random() < 0.5]])
+        elif kind == "hex":
+            out.append(["hex", rng.randint(1, 8), rng.randint(1, 8), rng.random() < 0.5])
+        elif kind == "brick":
+            out.append(["brick", rng.randint(1, 8), rng.randint(1, 8), rng.random() < 0.5, rng.random() < 0.5])
+        else:
+            p0, p1 = rng.random() < 0.5, rng.random() < 0.5
+            s0, s1 = rng.randint(1, 9), rng.randint(1, 9)
+            if p0:
+                s0 += s0 % 2
+            if p1:
+                s1 += s1 % 2
+            out.append(["ofc", s0, s1, p0, p1])
     return out
 
 
@@ -400,9 +425,9 @@ def run(ctx):
                        "coordinates handed to coord_to_index of the 2-d classes are pairs")
     ctx.rules.append(
         "every lattice class, all shapes <= %s per axis (<= 3 axes for integer, <= 2 for triangular, 2-d classes <= %s x %s), "
-        "all per-axis boundary combinations, both conventions, delete on/off, layered over every class with 1-3 layers; "
-        "index tables cover -1..nsites and the coordinate box enlarged by one in every direction. "
-        "non-trivial = lattice with more than one site" % ("5" if ctx.thorough else "5 (4 on 3 axes)", *(("6", "6") if ctx.thorough else ("5", "5"))))
+        "all per-axis boundary combinations, both conventions, delete on/off, layered over every class with 1-3 (some bases 4-5) layers; "
+        "plus a seeded handful of larger lattices (extents up to 12); index tables cover -1..nsites+1 and the coordinate box enlarged by one in every direction. "
+        "non-trivial = lattice with more than one site" % ("5" if ctx.thorough else "5 (3 on 3 axes)", *(("6", "6") if ctx.thorough else ("5", "5"))))
     ctx.lib(["Lattice/LatCheck"] + PROOF_TARGETS)
     ctx.log("library built")
     try:
